@@ -32,8 +32,10 @@ func (c *HTTPResponder) AddHeader(name string, value string) {
 
 func (c *HTTPResponder) SetHeaders(headers http.Header) {
 	for key, values := range headers {
+		// Replace whatever is set for this field, then keep every value of it (Set-Cookie, Link, Vary, ...).
+		c.GetHeaders().Del(key)
 		for _, value := range values {
-			c.SetHeader(key, value)
+			c.AddHeader(key, value)
 		}
 	}
 }
